@@ -474,7 +474,7 @@ def eventlist_search(rounds=3000, seed=0):
     return None
 
 
-@replayer(r"(EventListHeap|SimEvent)\..*")
+@replayer(r"EventListHeap\..*|SimEvent\.__(cmp|eq|ne|lt|le|gt|ge)__")
 def replay_eventlist(rec):
     for seed in range(2):
         f = eventlist_search(seed=seed)
@@ -1031,8 +1031,10 @@ def simulator_search(rounds=60, seed=0):
                     acts.append(("now", rng.choice([1, 5, 10]), child))
                 elif k < 0.75:
                     acts.append(("abs", rng.choice([2.0, 5.0, 7.5, 10.0, 12.0]), rng.choice([1, 5, 10]), child))
-                elif k < 0.9:
+                elif k < 0.86:
                     acts.append(("cancel", rng.randrange(12)))
+                elif k < 0.93:
+                    acts.append(("cmd", rng.choice(["run_up_to", "run_up_to_including", "start", "step"]), rng.choice([0.5, 3.0, 6.5, 20.0])))
                 else:
                     acts.append(("bad", rng.choice([-1.0, float("nan")])))
             prog[tag] = acts
@@ -1102,6 +1104,19 @@ def simulator_search(rounds=60, seed=0):
                         elif a[0] == "cancel":
                             if a[1] < len(handles):
                                 sim.cancel_event(handles[a[1]])
+                        elif a[0] == "cmd":
+                            # a command issued while the run is in progress must be refused and change nothing
+                            try:
+                                if a[1] == "start":
+                                    sim.start()
+                                elif a[1] == "step":
+                                    sim.step()
+                                else:
+                                    getattr(sim, a[1])(a[2])
+                                if mode != "steps":
+                                    refused.append("%s issued from a handler while running was accepted" % a[1])
+                            except DSOLError:
+                                pass
                         elif a[0] == "bad":
                             before = sim.eventlist().size()
                             try:
@@ -1175,6 +1190,223 @@ def simulator_search(rounds=60, seed=0):
                 if trace[i][0] < trace[i - 1][0]:
                     return {"program": prog, "initial": init, "failure": "clock moved backwards in the trace %s" % (trace,)}
     return None
+
+
+def reinit_search(rounds=40, seed=0, witness=None):
+    """Replication isolation on the real code: a seeded model program (stream, SimTally/SimCounter/SimPersistent created in
+    construct_model, handlers that draw, observe and schedule) is run for a replication on a simulator with a generated
+    prior history (fresh / only initialised / stepped k times / paused by a bounded run / ended / paused by a failing
+    handler) and compared with the same replication on a brand-new simulator and model: trace, clock, statistics, number of
+    pending events right after initialize, notification stream.  Initialising from inside a handler must be refused."""
+    import io
+    import contextlib
+    from pydsol.core.simulator import DEVSSimulatorFloat, ErrorStrategy, RunState, ReplicationState
+    from pydsol.core.model import DSOLModel
+    from pydsol.core.experiment import SingleReplication
+    from pydsol.core.pubsub import EventProducer, EventListener
+    from pydsol.core.interfaces import StatEvents, ReplicationInterface, SimulatorInterface
+    from pydsol.core.statistics import SimTally, SimCounter, SimPersistent
+    from pydsol.core.streams import MersenneTwister
+    from pydsol.core.utils import DSOLError
+    rng = random.Random(1000 + seed)
+
+    class Rec(EventListener):
+        def __init__(self):
+            self.got = []
+
+        def notify(self, event):
+            self.got.append((event.event_type.name, getattr(event, "timestamp", None)))
+
+    def make_model(sim, prog):
+        class M(DSOLModel, EventProducer):
+            def __init__(self, simulator):
+                DSOLModel.__init__(self, simulator)
+                EventProducer.__init__(self)
+                self.refused = []
+
+            def construct_model(self):
+                self.trace = []
+                self.stream = MersenneTwister(prog["seed"])
+                # the model's data source: rebuilt for every replication, or the model object itself
+                self.source = self if prog.get("own_producer") else EventProducer()
+                self.tally = SimTally("tally", "t", self.simulator)
+                self.tally.listen_to(self.source, StatEvents.DATA_EVENT)
+                self.counter = SimCounter("counter", "c", self.simulator)
+                self.counter.listen_to(self.source, StatEvents.DATA_EVENT)
+                if prog["persistent"]:
+                    self.pers = SimPersistent("pers", "p", self.simulator)
+                    self.pers.listen_to(self.source, StatEvents.TIMESTAMP_DATA_EVENT)
+                for (t, prio, tag) in prog["initial"]:
+                    self.simulator.schedule_event_abs(t, self, "h", prio, tag=tag)
+
+            def h(self, tag):
+                try:
+                    self._h(tag)
+                except RuntimeError:
+                    raise
+                except Exception as e:       # a failure of the harness itself, not an injected one
+                    import traceback
+                    self.refused.append("handler failed unexpectedly: %s: %s | %s" % (type(e).__name__, e, traceback.format_exc()[-400:]))
+                    raise
+
+            def _h(self, tag):
+                sim = self.simulator
+                x = self.stream.next_int(1, 9)
+                self.trace.append((sim.simulator_time, tag, x))
+                self.source.fire(StatEvents.DATA_EVENT, x)
+                if prog["persistent"]:
+                    self.source.fire_timed(sim.simulator_time, StatEvents.TIMESTAMP_DATA_EVENT, float(x))
+                for (d, prio, child) in prog["children"].get(tag, []):
+                    sim.schedule_event_rel(d * (1 + x % 2), self, "h", prio, tag=child)
+                if tag in prog["reinit_from"]:
+                    before = sim.eventlist().size()
+                    try:
+                        sim.initialize(self, prog["repl"]())
+                        self.refused.append("initialize() from a handler of a running simulator was accepted")
+                    except DSOLError:
+                        if sim.eventlist().size() != before:
+                            self.refused.append("refused initialize() changed the pending events (%d -> %d)" % (before, sim.eventlist().size()))
+                if tag in prog["fails"] and prog["arm"][0]:
+                    raise RuntimeError("injected failure")
+        return M(sim)
+
+    def observe(sim, m, prog):
+        """initialize was just called: run the replication to its end and collect everything observable"""
+        obs = {"clock_at_start": sim.simulator_time, "pending_at_start": sim.eventlist().size(),
+               "run_state_at_start": str(sim.run_state), "replication_state_at_start": str(sim.replication_state),
+               "stat_keys": sorted(m.output_statistics().keys())}
+        rec = Rec()
+        for et in (SimulatorInterface.START_EVENT, SimulatorInterface.STOP_EVENT, SimulatorInterface.TIME_CHANGED_EVENT,
+                   ReplicationInterface.WARMUP_EVENT, ReplicationInterface.END_REPLICATION_EVENT):
+            sim.add_listener(et, rec)
+        sim.start()
+        _wait_quiescent(sim)
+        import time as _t
+        _t.sleep(0.02)
+        t, c = m.output_statistics()["tally"], m.output_statistics()["counter"]
+        obs.update({"trace": list(m.trace), "clock": sim.simulator_time, "run_state": str(sim.run_state),
+                    "tally": (t.n(), t.sum(), t.min(), t.max()), "counter": (c.n(), c.count()),
+                    "same_objects": t is m.tally and c is m.counter, "notifications": list(rec.got)})
+        if prog["persistent"]:
+            p = m.output_statistics()["pers"]
+            obs["persistent"] = (p.n(), p.weighted_sum(), p.weighted_mean())
+        return obs
+
+    for rnd in range(rounds):
+        n = rng.randrange(3, 8)
+        prog = {"seed": rng.randrange(1, 1000), "persistent": rng.random() < 0.5,
+                "initial": [(t0, rng.choice([1, 5, 5, 10] if t0 != 2.0 else [1, 5, 5]), rng.randrange(n))
+                            for t0 in [rng.choice([0.0, 0.5, 1.0, 2.0, 2.0, 3.0, 4.5, 7.0, 10.0]) for _ in range(rng.randrange(2, 6))]],
+                "children": {t: [(rng.choice([0.0, 0.5, 1.0, 2.0]), rng.choice([1, 5]), rng.randrange(t + 1, n))
+                                 for _ in range(rng.randrange(0, 3))] for t in range(n - 1)},
+                "reinit_from": {t for t in range(n) if rng.random() < 0.15},
+                "fails": {t for t in range(n) if rng.random() < 0.2}, "arm": [False],
+                "repl": lambda: SingleReplication("r", 0.0, 2.0, 10.0)}
+        # a model that is itself the data source keeps the statistics of earlier replications subscribed; a stale
+        # SimPersistent then rejects the new replication's timestamps (known finding, probed separately by `witness`)
+        prog["own_producer"] = rng.random() < 0.4
+        if prog["own_producer"]:
+            prog["persistent"] = False
+        history = rng.choice(["fresh", "initialized", "steps", "paused", "ended", "fault"])
+        if witness is not None:
+            prog.update(witness["program"])
+            history = witness["history"]
+        out = io.StringIO()
+        sims = []
+        try:
+            with contextlib.redirect_stdout(out), contextlib.redirect_stderr(out):
+                # reference: brand-new simulator and model
+                ref_sim = DEVSSimulatorFloat("ref")
+                sims.append(ref_sim)
+                ref_m = make_model(ref_sim, prog)
+                ref_sim.initialize(ref_m, prog["repl"]())
+                ref = observe(ref_sim, ref_m, prog)
+                # the simulator with a history
+                sim = DEVSSimulatorFloat("hist")
+                sims.append(sim)
+                m = make_model(sim, prog)
+                detail = history
+                if history != "fresh":
+                    sim.initialize(m, prog["repl"]())
+                    if history == "steps":
+                        k = rng.randrange(1, 6)
+                        detail = "stepped %d times" % k
+                        for _ in range(k):
+                            try:
+                                sim.step()
+                            except DSOLError:
+                                break
+                    elif history == "paused":
+                        c = rng.choice([0.5, 1.0, 2.0, 3.0, 6.0])
+                        detail = "paused by run_up_to(%r)" % c
+                        sim.run_up_to(c)
+                        _wait_quiescent(sim)
+                    elif history == "ended":
+                        sim.start()
+                        _wait_quiescent(sim)
+                    elif history == "fault":
+                        sim.set_error_strategy(ErrorStrategy.WARN_AND_PAUSE, 100)
+                        prog["arm"][0] = True
+                        sim.start()
+                        _wait_quiescent(sim)
+                        prog["arm"][0] = False
+                        sim.set_error_strategy(ErrorStrategy.WARN_AND_CONTINUE, 100)
+                        detail = "paused by a failing handler" if sim.run_state != RunState.ENDED else "ended (no armed failure hit)"
+                    sim.initialize(m, prog["repl"]())
+                else:
+                    sim.initialize(m, prog["repl"]())
+                got = observe(sim, m, prog)
+        except Exception as e:
+            return {"program": {k: v for k, v in prog.items() if k not in ("repl", "arm")}, "history": history,
+                    "failure": "%s escaped from the second replication: %s" % (type(e).__name__, e)}
+        finally:
+            for s_ in sims:
+                try:
+                    with contextlib.redirect_stdout(out):
+                        s_.cleanup()
+                except Exception:
+                    pass
+        progd = {k: (sorted(v) if isinstance(v, set) else v) for k, v in prog.items() if k not in ("repl", "arm")}
+        if m.refused or ref_m.refused:
+            return {"program": progd, "history": detail, "failure": (m.refused or ref_m.refused)[0]}
+        if got["clock_at_start"] != 0.0:
+            return {"program": progd, "history": detail, "failure": "clock %r after initialize (replication start 0.0)" % (got["clock_at_start"],)}
+        # absolute oracle (also C11): the statistics hold exactly the observations made at or after the warm-up time 2.0
+        # (model events at the warm-up instant have a lower priority than the warm-up event, so they come after it)
+        for label, o in (("brand-new simulator", ref), ("simulator with history '%s'" % detail, got)):
+            xs = [x for (t, _tag, x) in o["trace"] if t >= 2.0]
+            want_t = (len(xs), float(sum(xs)) if xs else 0.0, float(min(xs)) if xs else None, float(max(xs)) if xs else None)
+            have_t = (o["tally"][0], float(o["tally"][1]), None if o["tally"][0] == 0 else float(o["tally"][2]),
+                      None if o["tally"][0] == 0 else float(o["tally"][3]))
+            if have_t != want_t or o["counter"] != (len(xs), sum(xs)):
+                return {"program": progd, "history": detail,
+                        "failure": "on the %s the tally (n, sum, min, max) is %s and the counter %s; the observations at or after the "
+                                   "warm-up time 2.0 are %s" % (label, have_t, o["counter"], xs)}
+        for k in ref:
+            if repr(got[k]) != repr(ref[k]):
+                return {"program": progd, "history": detail,
+                        "failure": "%s of the replication after history '%s' is %s; on a brand-new simulator and model it is %s"
+                                   % (k, detail, repr(got[k])[:300], repr(ref[k])[:300])}
+    return None
+
+
+REINIT_WITNESS = {"history": "ended",
+                  "program": {"seed": 7, "persistent": True, "own_producer": True, "initial": [(1.0, 5, 0), (3.0, 5, 0), (6.0, 5, 0)],
+                              "children": {}, "reinit_from": set(), "fails": set()}}
+
+
+@replayer(r"(DEVSSimulator|Simulator)\.(initialize|cleanup)(\[.*\])?|EventListHeap\.clear|DSOLModel\.(add|get)_output_statistic")
+def replay_reinit(rec):
+    if rec.get("obligation") == "witness-stale-persistent":
+        f = reinit_search(rounds=1, witness=REINIT_WITNESS)
+        if f:
+            return {"reproduced": True, "input": f, "observed": f["failure"]}
+        return {"reproduced": False, "note": "the witness program runs its second replication like the first"}
+    for seed in range(2):
+        f = reinit_search(seed=seed)
+        if f:
+            return {"reproduced": True, "input": f, "observed": f["failure"]}
+    return {"reproduced": False, "note": "no history / model program found whose second replication differs (80 generated programs x 6 histories)"}
 
 
 @replayer(r"(DEVSSimulator|Simulator|SimEvent)\..*")
